@@ -273,8 +273,9 @@ func init() {
 				RIDs:      []string{"t.a", "t.b", "t.m", "t.e"},
 			},
 			{Name: "c08-limit", MinOps: 4, MaxOps: 14, MaxConns: 1, Versions: []string{"1.2.3"},
-				W:           weightsWith(map[string]int{"subscribe": 6, "get": 2, "unsubscribe": 10, "burst": 30, "call": 0, "new": 0, "mutate": 0, "connect": 1, "answer": 30, "httpget": 0, "sysreset": 0, "custom": 0, "qmutate": 0, "qevent": 0, "silent": 0, "badreq": 0, "token": 0, "close": 0, "delete": 1, "reaccess": 1, "auth": 0}),
+				W:           weightsWith(map[string]int{"subscribe": 6, "get": 4, "unsubscribe": 10, "burst": 12, "limitburst": 10, "call": 4, "new": 0, "mutate": 0, "connect": 1, "answer": 30, "httpget": 0, "sysreset": 0, "custom": 0, "qmutate": 0, "qevent": 0, "silent": 0, "badreq": 0, "token": 0, "close": 0, "delete": 1, "reaccess": 1, "auth": 0}),
 				BurstMax:    140,
+				CallOut:     map[string]int{"resource": 8, "result": 2, "err": 1},
 				RIDs:        []string{"t.e"},
 				UnsubParams: []string{`{"count":255}`, `{"count":256}`, `{"count":257}`, `{"count":128}`},
 			},
@@ -434,22 +435,23 @@ func mergeW(a, b map[string]int) map[string]int {
 
 func init() {
 	register(&SimProp{
-		ID:       "C01",
-		Profiles: []*Profile{dataProfile("c01-general", nil), dataProfile("c01-events", map[string]int{"mutate": 30, "answer": 30, "sysreset": 5, "silent": 6})},
+		ID: "C01",
+		Profiles: []*Profile{dataProfile("c01-general", nil), dataProfile("c01-events", map[string]int{"mutate": 30, "answer": 30, "sysreset": 5, "silent": 6}),
+			dataProfile("c01-refstates", map[string]int{"refburst": 12, "mutate": 14, "answer": 30, "subscribe": 20})},
 		Config:   graphConfig,
 		Monitors: func() []Monitor { return []Monitor{NewMonC01()} },
 		Trigger:  triggerData,
 	})
 	register(&SimProp{
 		ID:       "C02",
-		Profiles: []*Profile{dataProfile("c02-graphs", map[string]int{"unsubscribe": 14, "mutate": 22, "custom": 2, "get": 6}), dataProfile("c02-general", nil)},
+		Profiles: []*Profile{dataProfile("c02-graphs", map[string]int{"unsubscribe": 14, "mutate": 22, "custom": 2, "get": 6, "refburst": 5}), dataProfile("c02-general", nil)},
 		Config:   graphConfig,
 		Monitors: func() []Monitor { return []Monitor{NewMonC02()} },
 		Trigger:  triggerData,
 	})
 	register(&SimProp{
 		ID:       "C03",
-		Profiles: []*Profile{dataProfile("c03-customs", map[string]int{"trigburst": 6, "custom": 45, "mutate": 14, "reaccess": 4, "qevent": 2, "sysreset": 4})},
+		Profiles: []*Profile{dataProfile("c03-customs", map[string]int{"trigburst": 6, "refburst": 4, "custom": 45, "mutate": 14, "reaccess": 4, "qevent": 2, "sysreset": 4})},
 		Config:   graphConfig,
 		Monitors: func() []Monitor { return []Monitor{NewMonC03()} },
 		Trigger:  triggerData,
